@@ -74,6 +74,48 @@ func exec(op string) string {
 			return "nil"
 		}
 		return "ok " + Hex(out)
+	case "fnorm": // fnorm a m b : (-a as Negate(a,m)) + b, normalized   (a, b 32-byte values, possibly >= p)
+		var a, b, r secp.Field
+		a.SetB32(PHex(f[1]))
+		b.SetB32(PHex(f[3]))
+		a.Normalize()
+		a.Negate(&r, uint32(PU64(f[2])))
+		r.SetAdd(&b)
+		r.Normalize()
+		var o [32]byte
+		r.GetB32(o[:])
+		return "ok " + Hex(o[:])
+	case "fmul": // fmul a b k : (a*b)*k normalized
+		var a, b, r secp.Field
+		a.SetB32(PHex(f[1]))
+		b.SetB32(PHex(f[2]))
+		a.Mul(&r, &b)
+		r.MulInt(uint32(PU64(f[3])))
+		r.Normalize()
+		var o [32]byte
+		r.GetB32(o[:])
+		return "ok " + Hex(o[:])
+	case "finv": // finv a : a^-1 (0 for 0)
+		var a, r secp.Field
+		a.SetB32(PHex(f[1]))
+		a.Inv(&r)
+		r.Normalize()
+		var o [32]byte
+		r.GetB32(o[:])
+		return "ok " + Hex(o[:])
+	case "ptadd": // XY.AddXY on two parsed public keys
+		var p1, p2 secp.XY
+		if err := p1.ParsePubkey(PHex(f[1])); err != nil {
+			return "badpub"
+		}
+		if err := p2.ParsePubkey(PHex(f[2])); err != nil {
+			return "badpub"
+		}
+		p1.AddXY(&p2)
+		if p1.Infinity {
+			return "inf"
+		}
+		return "ok " + Hex(p1.Bytes())
 	case "rawsign": // rawsign d z k : Signature.Sign with an explicit nonce
 		var d, z, k secp.Number
 		d.SetBytes(PHex(f[1]))
@@ -307,6 +349,63 @@ func gen(r *Rng, tier string, emit func(string)) {
 				emit("uncompress " + Hex(b))
 				emit("ecdh " + Hex(b) + " " + Hex(b32(validScalar(r, edges))))
 			}
+		}
+	}
+	// --- field arithmetic on structured values: tiny, next to p, next to 2^256, and their combinations (the reduction
+	// code is exercised at its carries only by such values; random values never reach them)
+	fieldVals := func() []*big.Int {
+		var l []*big.Int
+		for _, t := range []int64{0, 1, 2, 3, 0x3d0, 0x3d1, 0x3d2, 977, 1000, 65535} {
+			l = append(l, big.NewInt(t), new(big.Int).Sub(eclib.P, big.NewInt(t)), new(big.Int).Sub(two256, big.NewInt(t+1)))
+		}
+		d := new(big.Int).Sub(two256, eclib.P) // 2^32 + 977
+		l = append(l, d, add(d, 1), add(d, -1), new(big.Int).Lsh(big.NewInt(1), 255), new(big.Int).Lsh(big.NewInt(1), 26), add(new(big.Int).Lsh(big.NewInt(1), 26), -1),
+			new(big.Int).Sub(new(big.Int).Lsh(big.NewInt(1), 234), big.NewInt(1)))
+		return l
+	}()
+	pickF := func() *big.Int {
+		switch r.Intn(4) {
+		case 0:
+			return new(big.Int).SetBytes(r.Bytes(32))
+		case 1:
+			return new(big.Int).SetUint64(r.U64() >> uint(r.Intn(60)))
+		}
+		return fieldVals[r.Intn(len(fieldVals))]
+	}
+	for i := 0; i < 150*scale; i++ {
+		a, b := pickF(), pickF()
+		emit("fnorm " + Hex(b32(a)) + " " + strconv.Itoa(1+r.Intn(8)) + " " + Hex(b32(b)))
+		if i%3 == 0 {
+			emit("fmul " + Hex(b32(a)) + " " + Hex(b32(b)) + " " + strconv.Itoa(1+r.Intn(8)))
+		}
+		if i%10 == 0 {
+			emit("finv " + Hex(b32(a)))
+		}
+	}
+	// point addition incl. doubling (P+P), inverse (P+(-P)) and extreme ordinates / abscissae
+	var xs []eclib.Pt
+	for xv := int64(1); len(xs) < 6; xv++ {
+		if pt, ok := eclib.LiftX(big.NewInt(xv), r.Bool()); ok {
+			xs = append(xs, pt)
+		}
+	}
+	for yv := int64(1); len(xs) < 14; yv++ {
+		if pt, ok := eclib.PointWithY(big.NewInt(yv)); ok {
+			xs = append(xs, pt, eclib.Neg(pt))
+		}
+	}
+	for i := 0; i < 12*scale; i++ {
+		p1 := xs[r.Intn(len(xs))]
+		p2 := xs[r.Intn(len(xs))]
+		if r.Chance(30) {
+			p2 = eclib.Mul(validScalar(r, edges), eclib.G)
+		}
+		emit("ptadd " + Hex(eclib.Compress(p1)) + " " + Hex(eclib.Compress(p2)))
+		emit("mul " + Hex(eclib.Compress(p1)) + " " + Hex(b32(validScalar(r, edges))))
+		if i%4 == 0 {
+			emit("mul " + Hex(eclib.Compress(p1)) + " " + Hex(b32(big.NewInt(int64(1+r.Intn(70))))))
+			emit("ptadd " + Hex(eclib.Compress(p1)) + " " + Hex(eclib.Compress(p1)))
+			emit("ptadd " + Hex(eclib.Compress(p1)) + " " + Hex(eclib.Compress(eclib.Neg(p1))))
 		}
 	}
 	// --- signing with explicit nonce, verification, recovery
